@@ -212,14 +212,22 @@ package pubsub
 // if it had an outbound queue, that queue is closed, the peer leaves p.peers, its topic state is
 // cleared and the router is told - whatever Blacklist.Add returned.
 //@ func (*PubSub).processLoop
-//@   property C05 C13 C16
+//@   property C05 C13 C16 C14
+//@   cancellable
+//@   ensures exits-only-on-cancel: ctxdone(ctx)
 //@   noframe
-//@   loop 1 assume event-loop-invariant: invSub(p) && topicsRep(p) && p.peers != nil
+//@   loop 1 assume event-loop-invariant: invSub(p) && topicsRep(p) && p.peers != nil &&
+//@        (forall t string :: t in p.myTopics && p.myTopics[t] != nil ==> p.myTopics[t].topic == t)
 //@   at call handleAddSubscription assume request-from-Subscribe: $arg1 != nil && $arg1.sub != nil && $arg1.sub.topic in p.myTopics && p.myTopics[$arg1.sub.topic] != nil && !has(p.mySubs, $arg1.sub.topic, $arg1.sub)
 //@   at call handleRemoveSubscription assume request-from-Cancel: $arg1 != nil
+//@   at call AddValidator assume request-from-RegisterTopicValidator: $arg1 != nil && $arg0.topicVals != nil
+//@   at call RemoveValidator assume request-from-UnregisterTopicValidator: $arg1 != nil && $arg0.topicVals != nil
+//@   at call handleAddTopic assume request-from-Join: $arg1 != nil && $arg1.topic != nil
+//@   at call handleRemoveTopic assume request-from-Close: $arg1 != nil && $arg1.topic != nil
 //@   at call handleAddRelay assume request-from-Relay: $arg1 != nil && !fanoutOnlyT(p, $arg1.topic)
 //@   at call handleIncomingRPC assume decoded-by-reader: $arg1 != nil && (forall i int :: 0 <= i && i < len($arg1.RPC.Publish) ==> $arg1.RPC.Publish[i] != nil)
 //@   at call publishMessage assume validated-message: $arg1 != nil
+//@   at call publishMessageBatch assume validated-batch: allocated(arr($arg1.messages)) && (forall i int :: 0 <= i && i < len($arg1.messages) ==> $arg1.messages[i] != nil && allocated($arg1.messages[i]))
 //@   loop 1 step add-sub-dispatched: calls((*PubSub).handleAddSubscription) - iter(calls((*PubSub).handleAddSubscription)) == received(p.addSub) - iter(received(p.addSub)) &&
 //@        (received(p.addSub) > iter(received(p.addSub)) ==> lastarg((*PubSub).handleAddSubscription, 1) == lastrecv(p.addSub))
 //@   loop 1 step cancel-dispatched: calls((*PubSub).handleRemoveSubscription) - iter(calls((*PubSub).handleRemoveSubscription)) == received(p.cancelCh) - iter(received(p.cancelCh)) &&
@@ -228,6 +236,14 @@ package pubsub
 //@        (received(p.addRelay) > iter(received(p.addRelay)) ==> lastarg((*PubSub).handleAddRelay, 1) == lastrecv(p.addRelay))
 //@   loop 1 step rm-relay-dispatched: calls((*PubSub).handleRemoveRelay) - iter(calls((*PubSub).handleRemoveRelay)) == received(p.rmRelay) - iter(received(p.rmRelay)) &&
 //@        (received(p.rmRelay) > iter(received(p.rmRelay)) ==> lastarg((*PubSub).handleRemoveRelay, 1) == lastrecv(p.rmRelay))
+//@   loop 1 step add-topic-dispatched: calls((*PubSub).handleAddTopic) - iter(calls((*PubSub).handleAddTopic)) == received(p.addTopic) - iter(received(p.addTopic)) &&
+//@        (received(p.addTopic) > iter(received(p.addTopic)) ==> lastarg((*PubSub).handleAddTopic, 1) == lastrecv(p.addTopic))
+//@   loop 1 step rm-topic-dispatched: calls((*PubSub).handleRemoveTopic) - iter(calls((*PubSub).handleRemoveTopic)) == received(p.rmTopic) - iter(received(p.rmTopic)) &&
+//@        (received(p.rmTopic) > iter(received(p.rmTopic)) ==> lastarg((*PubSub).handleRemoveTopic, 1) == lastrecv(p.rmTopic))
+//@   loop 1 step get-topics-answered: forall r *topicReq :: received(p.getTopics) > iter(received(p.getTopics)) && r == lastrecv(p.getTopics) ==> sent(r.resp) == iter(sent(r.resp)) + 1
+//@   loop 1 step list-peers-answered: forall r *listPeerReq :: received(p.getPeers) > iter(received(p.getPeers)) && r == lastrecv(p.getPeers) ==> sent(r.resp) == iter(sent(r.resp)) + 1
+//@   loop 1 step validator-requests-dispatched: calls((*validation).AddValidator) - iter(calls((*validation).AddValidator)) == received(p.addVal) - iter(received(p.addVal)) &&
+//@        calls((*validation).RemoveValidator) - iter(calls((*validation).RemoveValidator)) == received(p.rmVal) - iter(received(p.rmVal))
 //@   loop 1 step dead-peers-handled: calls((*PubSub).handleDeadPeers) - iter(calls((*PubSub).handleDeadPeers)) == received(p.peerDead) - iter(received(p.peerDead))
 //@   loop 1 step new-peers-handled: calls((*PubSub).handlePendingPeers) - iter(calls((*PubSub).handlePendingPeers)) == received(p.newPeers) - iter(received(p.newPeers))
 //@   loop 1 step blacklist-evicts: forall q string :: received(p.blacklistPeer) > iter(received(p.blacklistPeer)) && q == lastrecv(p.blacklistPeer) ==>
@@ -322,3 +338,39 @@ package pubsub
 //@   loop 1 step writer-only-for-new-queue: forall q string :: q == pid && (iter(q in p.peers) || !(q in p.peers)) ==>
 //@        calls(go:(*PubSub).handleNewPeer) == iter(calls(go:(*PubSub).handleNewPeer))
 //@   ensures known-kept: forall q string :: old(q in p.peers) ==> q in p.peers && p.peers[q] == old(p.peers[q])
+
+// publishMessageBatch: every message of the batch is delivered locally exactly once (one
+// DELIVER_MESSAGE, one notifySubs, in order); only the messages that are not local-only are
+// handed to the router, in their original order.
+//@ func (*PubSub).publishMessageBatch
+//@   property C06 C19 C02
+//@   requires msgs: allocated(arr(batchAndOpts.messages)) && (forall i int :: 0 <= i && i < len(batchAndOpts.messages) ==> batchAndOpts.messages[i] != nil && allocated(batchAndOpts.messages[i]))
+//@   noframe
+//@   loop 1 invariant delivering: calls((*pubsubTracer).DeliverMessage) - old(calls((*pubsubTracer).DeliverMessage)) == rangeindex + 1 &&
+//@        calls((*PubSub).notifySubs) - old(calls((*PubSub).notifySubs)) == rangeindex + 1 && rangeindex + 1 <= len(batchAndOpts.messages) &&
+//@        calls(BatchPublisher.PublishBatch) == old(calls(BatchPublisher.PublishBatch))
+//@   loop 1 invariant routed: (cap(toRoute) == 0 || fresh(arr(toRoute))) && rangeindex >= -1 &&
+//@        (forall j int :: 0 <= j && j < len(batchAndOpts.messages) ==> batchAndOpts.messages[j] == old(batchAndOpts.messages[j]) && batchAndOpts.messages[j].Local == old(batchAndOpts.messages[j].Local)) &&
+//@        (forall i int :: 0 <= i && i < len(toRoute) ==> toRoute[i] != nil && !toRoute[i].Local &&
+//@            (exists j int :: 0 <= j && j < len(batchAndOpts.messages) && toRoute[i] == batchAndOpts.messages[j])) &&
+//@        (forall j int :: 0 <= j && j <= rangeindex && !batchAndOpts.messages[j].Local ==> (exists i int :: 0 <= i && i < len(toRoute) && toRoute[i] == batchAndOpts.messages[j]))
+//@   ensures each-delivered-once: calls((*pubsubTracer).DeliverMessage) - old(calls((*pubsubTracer).DeliverMessage)) == len(batchAndOpts.messages) &&
+//@        calls((*PubSub).notifySubs) - old(calls((*PubSub).notifySubs)) == len(batchAndOpts.messages)
+//@   ensures routed-once: calls(BatchPublisher.PublishBatch) == old(calls(BatchPublisher.PublishBatch)) + 1
+//@   at call PublishBatch#1 assert local-only-not-routed: forall i int :: 0 <= i && i < len($arg1) ==> $arg1[i] != nil && !$arg1[i].Local
+//@   at call PublishBatch#1 assert only-batch-messages: forall i int :: 0 <= i && i < len($arg1) && $arg1[i] != nil ==>
+//@        (exists j int :: 0 <= j && j < len(batchAndOpts.messages) && $arg1[i] == batchAndOpts.messages[j])
+//@   at call PublishBatch#1 assert all-non-local-routed: forall j int :: 0 <= j && j < len(batchAndOpts.messages) && !batchAndOpts.messages[j].Local ==>
+//@        (exists i int :: 0 <= i && i < len($arg1) && $arg1[i] == batchAndOpts.messages[j])
+
+// processLoop's deferred cleanup (C14): every outbound queue is closed exactly once (which wakes
+// its writer goroutine with ErrQueueClosed), the peer and topic tables are dropped and the seen
+// cache's sweeper is stopped.
+//@ func (*PubSub).processLoop$1
+//@   property C14 C13
+//@   noframe
+//@   loop 1 invariant closing: calls((*rpcQueue).Close) - old(calls((*rpcQueue).Close)) == $count
+//@   loop 1 invariant table-kept: forall q string :: (q in p.peers) == old(q in p.peers) && p.peers[q] == old(p.peers[q])
+//@   ensures dropped: p.peers == nil && p.topics == nil
+//@   ensures all-closed: calls((*rpcQueue).Close) - old(calls((*rpcQueue).Close)) == old(len(p.peers))
+//@   ensures sweeper-stopped: calls(TimeCache.Done) == old(calls(TimeCache.Done)) + 1
